@@ -1041,6 +1041,10 @@ package sse
 //@   requires j != nil
 //@   modifies j.message, j.subscription, j.unsubscription, j.done, j.closed, j.subscribers
 //@   ensures channels_exist: j.message != nil && j.subscription != nil && j.unsubscription != nil && j.done != nil && j.closed != nil && j.subscribers != nil
+// every hand-over to the run loop is a rendezvous: a completed send means the loop has taken the value (this is what
+// lets Subscribe/Publish conclude from "my send completed" that the loop acted on it - C03, C06)
+//@   ensures hand_overs_are_rendezvous: chcap(j.message) == 0 && chcap(j.subscription) == 0 && chcap(j.unsubscription) == 0 && chcap(j.done) == 0 && chcap(j.closed) == 0
+//@   ensures channels_open: !chclosed(j.message) && !chclosed(j.subscription) && !chclosed(j.unsubscription) && !chclosed(j.done) && !chclosed(j.closed)
 
 //@ pure lastop() = ncalls() - 1
 
